@@ -32,7 +32,7 @@ def leaf(fn, F):
         g = [(hir.fmt(x[1], 200), x[2]) for x in (hir.guards_of(n, body, sym) or []) if x[0] == "if"]
         if not any(t.endswith("is_empty(moves)") and pol is True for t, pol in g):
             continue
-        v = sym(n["e"])
+        v = hir.resolve_consts(sym(n["e"]), F)
         if v[0] == "ctor" and str(v[1]).endswith("::Some"):
             v = v[2][0]
         cond = [x for x in g if "king_exists" in x[0] or "is_targeted" in x[0]]
